@@ -382,7 +382,11 @@ func (e *Engine) solve(o *Obligation, dir string, timeout int) {
 		wg.Add(1)
 		go func() {
 			defer wg.Done()
-			st, out := runSolver(ctx, sp, f, timeout)
+			t := timeout
+			if o.MinTimeout > t {
+				t = o.MinTimeout
+			}
+			st, out := runSolver(ctx, sp, f, t)
 			ch <- res{sp.name, st, out}
 		}()
 	}
@@ -531,4 +535,59 @@ func (x *Exec) feasibleCond(st *State, cond string) bool {
 		fmt.Fprintf(os.Stderr, "feasible? %s %.2fs %.80s\n", status, time.Since(t0).Seconds(), cond)
 	}
 	return status != "unsat"
+}
+
+// refuteEither asks both "can cond hold?" and "can its negation hold?" at once; refutations are quick, so the answer
+// usually arrives long before the other query (satisfiable, hence slow with quantified axioms) would time out.
+// Returns which sides are refuted.
+func (x *Exec) refuteEither(st *State, cond string) (condImpossible, negImpossible bool) {
+	gs := map[string]bool{}
+	for g := range st.groups {
+		gs[g] = true
+	}
+	if x.c != nil {
+		for _, g := range x.c.Groups {
+			gs[g] = true
+		}
+	}
+	dir := filepath.Join(outBase(), "tmp")
+	os.MkdirAll(dir, 0755)
+	mk := func(c string) string {
+		cmds := append(append([]string{}, st.cmds...), "(assert "+c+")")
+		o := &Obligation{Name: "feasibility", Cmds: cmds, Goal: "false", Groups: gs}
+		txt := x.e.smtText(o, false)
+		if len(txt) > maxSMTSize {
+			return ""
+		}
+		x.e.feasN++
+		file := filepath.Join(dir, fmt.Sprintf("feas_%d_%d.smt2", os.Getpid(), x.e.feasN))
+		os.WriteFile(file, []byte(txt), 0644)
+		return file
+	}
+	f1, f2 := mk(cond), mk(not(cond))
+	if f1 == "" || f2 == "" {
+		return false, false
+	}
+	defer os.Remove(f1)
+	defer os.Remove(f2)
+	ctx, cancel := context.WithCancel(context.Background())
+	defer cancel()
+	type r struct {
+		which  int
+		status string
+	}
+	ch := make(chan r, 2)
+	go func() { s, _ := runSolver(ctx, solvers[0], f1, 2); ch <- r{1, s} }()
+	go func() { s, _ := runSolver(ctx, solvers[0], f2, 2); ch <- r{2, s} }()
+	x.feasCalls += 2
+	for i := 0; i < 2; i++ {
+		a := <-ch
+		if a.status == "unsat" {
+			if a.which == 1 {
+				return true, false
+			}
+			return false, true
+		}
+	}
+	return false, false
 }
